@@ -6,7 +6,7 @@ Import ListNotations.
 From GA.Base Require Import Bytes Case Align.
 From GA.Gen Require Import Alpha.
 From GA.Model Require Import Container.
-From GA.Proofs Require Import ContainerProofs ConcatProofs ConcatRefine ContainerAll.
+From GA.Proofs Require Import ContainerProofs ConcatProofs ConcatRefine ContainerAll TrimDistinct.
 
 (* The invariant: every index entry designates an object of the list carrying
    that name, every name absent from the index is absent from the list, object
@@ -119,6 +119,27 @@ Example C01_nonvacuous :
     [([x61; x5f; x30; x30; x30; x31], [x47; x47]); ([x62], [x41; x43])] /\
   get_by_name (run h (empty_state true NUCLEOTIDS)) [x62] = Some [x41; x43] /\
   get_by_name (run h (empty_state true NUCLEOTIDS)) [x61] = None.
+Proof. repeat split; vm_compute; reflexivity. Qed.
+
+(* TrimNames is a renaming that KEEPS names unique: on distinctly named rows, with a caller map that hands out no
+   short name twice (an empty map, or the map filled by earlier TrimNames calls), a successful call leaves the
+   same number of rows and pairwise distinct short names - the first free two-digit identifier is taken against
+   every short name handed out so far, those of the map included *)
+Theorem C01_trim_names_keeps_names_distinct :
+  forall st m size st',
+  step st (OpTrim m size) = (st', true) ->
+  NoDup (map oname (c_objs st)) -> NoDup (map snd m) ->
+  length (c_objs st') = length (c_objs st) /\ NoDup (map oname (c_objs st')).
+Proof. exact trim_step_distinct. Qed.
+Print Assumptions C01_trim_names_keeps_names_distinct.
+
+(* non-vacuity: "abcdefgh" and "abcd01" trimmed to 6 characters - the second row's current name is the first
+   row's new short name - end as abcd01, abcd02, both found through the index *)
+Example C01_trim_nonvacuous :
+  let h := [OpAdd [x61; x62; x63; x64; x65; x66; x67; x68] [x41]; OpAdd [x61; x62; x63; x64; x30; x31] [x43]; OpTrim [] 6] in
+  map fst (abs (run h (empty_state true NUCLEOTIDS))) = [[x61; x62; x63; x64; x30; x31]; [x61; x62; x63; x64; x30; x32]] /\
+  get_by_name (run h (empty_state true NUCLEOTIDS)) [x61; x62; x63; x64; x30; x31] = Some [x41] /\
+  get_by_name (run h (empty_state true NUCLEOTIDS)) [x61; x62; x63; x64; x30; x32] = Some [x43].
 Proof. repeat split; vm_compute; reflexivity. Qed.
 
 (* shuffling only re-orders, whatever the draws *)
